@@ -168,7 +168,11 @@ func runCheck(eng *Engine, args []string, tier string, timeout, par int) int {
 				continue
 			}
 			switch o.Kind {
-			case "ensures", "inv-entry", "inv-preserved", "at-call", "decreases":
+			case "ensures", "decreases":
+				// postconditions are selected by property label. Loop invariants and at-call assertions are not: they are
+				// assumed (at the loop head, after the call) by every later obligation of the function, and nothing is
+				// assumed in a run that is not also checked in that run - otherwise a clause labelled for another
+				// property could mask a violation of this one (a must-fail mutant of C10 survived that way).
 				if !clauseCountsFor(o.Labels, prop) {
 					continue
 				}
